@@ -46,12 +46,12 @@ abbrev UV := Nat × Nat   -- (ledger id, version)
 /-- the scripted converter of channel V (same definition as in the Rust harness) -/
 def scripted (script : Array String) (k : Nat) (_t : Nat) (prev : Option UV) : COut UV Nat Nat :=
   match script[k]?.getD "c" with
-  | "c" => .converted (1000 + k, 0) prev
-  | "t" => .converted (1000 + k, 0) (prev.map fun (i, v) => (i, v + 1))
-  | "r" => .converted (1000 + k, 0) (prev.map fun _ => (2000 + k, 0))
+  | "c" => .converted (100000 + k, 0) prev
+  | "t" => .converted (100000 + k, 0) (prev.map fun (i, v) => (i, v + 1))
+  | "r" => .converted (100000 + k, 0) (prev.map fun _ => (200000 + k, 0))
   | "a" => .abandoned prev
-  | "e" => .err (3000 + k) prev
-  | _ => .panic (4000 + k) prev
+  | "e" => .err (300000 + k) prev
+  | _ => .panic (400000 + k) prev
 
 def uStr (u : UV) : String := s!"U{u.1}.{u.2}"
 def slotStr : Slot Nat UV → String
@@ -72,7 +72,7 @@ def convDrops (script : Array String) (calls : List (Nat × Option UV)) : String
       let base := [s!"T{t}"]
       let extra := match script[k]?.getD "c", p with
         | "r", some u => [uStr u]
-        | "p3", _ => [uStr (1000 + k, 0)]
+        | "p3", _ => [uStr (100000 + k, 0)]
         | _, _ => []
       (s!"{k}:" ++ sortedJoin (base ++ extra)) :: go (k + 1) rest
   ";".intercalate (go 0 calls)
